@@ -197,11 +197,10 @@ Example C14_example_overflow_undefined :
   run_src 50 [{| f_params := [0%N]; f_nres := 1; f_body := SReturn [EBin Mul (EVar 0%N) (EVar 0%N)] |}] 0 [VInt (2 ^ 32)] = Undef.
 Proof. vm_compute; reflexivity. Qed.
 
-(* the same example on the VM model: the compiled program assembles (the emitter's choice of widths: every jump
-   of it is short), the run stays within the limits, and the VM model halts with the source's value / faults;
+(* the same example on the VM model: the compiled program assembles (with the emitter's choice of jump widths, 178 bytes), the run stays within the limits, and the VM model halts with the source's value / faults;
    gas limit 10^9 picoGAS-units at base 30 is enough for 2000 instructions *)
 Example C14_example_vm :
-  (exists bs, assemble (compile_program C14_ex) = Some bs /\ length bs = 176%nat) /\
+  (exists bs, assemble (compile_program C14_ex) = Some bs /\ length bs = 178%nat) /\
   safe (compile_program C14_ex) 2000 (Target.init_state (entry C14_ex 0) [VInt 12; VInt 5]) = true /\
   (forall bs, assemble (compile_program C14_ex) = Some bs ->
      option_map final_stack
